@@ -1,16 +1,17 @@
 #!/usr/bin/env python3
-"""tools/seed_store.py <Cxx> <variant> [--force]
+"""tools/seed_store.py <Cxx> <variant> [--force] [--as=<letter>]   (env SEEDOUT / SEEDCONF select another round's directories)
 Store a confirmed seeded change as /verif/seeded/<Cxx><variant>/ (patch.diff rebased on /repo HEAD, demo.py, meta.json).
 Requires /tmp/seedconf/<Cxx>_<variant>.json (written by tools/seed_confirm.py) with confirmed=true.
 Records which rules of which checks report the change (meta.json "detected_by")."""
 import json, os, shutil, subprocess, sys
 
 prop, v = sys.argv[1], sys.argv[2]
-src = f"/tmp/seedout/{prop}"
-conf = json.load(open(f"/tmp/seedconf/{prop}_{v}.json"))
+src = os.environ.get("SEEDOUT", "/tmp/seedout") + f"/{prop}"
+conf = json.load(open(os.environ.get("SEEDCONF", "/tmp/seedconf") + f"/{prop}_{v}.json"))
+store_v = next((a.split("=", 1)[1] for a in sys.argv[3:] if a.startswith("--as=")), v)
 if not conf.get("confirmed") and "--force" not in sys.argv:
     sys.exit(f"{prop}{v}: not confirmed: {conf.get('pytest_summary')} {conf.get('stable_pass_regressions')} demo {conf.get('demo_with_patch')}")
-dst = f"/verif/seeded/{prop}{v}"
+dst = f"/verif/seeded/{prop}{store_v}"
 os.makedirs(dst, exist_ok=True)
 
 
@@ -53,7 +54,7 @@ if os.path.exists(f"{src}/meta_{v}.json"):
         am = {}
 primary = [d for d in detected if d.startswith(prop + ".")] + [d for d in detected if not d.startswith(prop + ".")]
 meta = {
-    "id": f"{prop}{v}",
+    "id": f"{prop}{store_v}",
     "property": prop,
     "summary": am.get("summary", ""),
     "needs_to_manifest": am.get("needs_to_manifest", ""),
@@ -72,4 +73,4 @@ meta = {
     "detected_by": primary,
 }
 json.dump(meta, open(f"{dst}/meta.json", "w"), indent=1)
-print(prop + v, "stored; detected_by", primary)
+print(prop + store_v, "stored; detected_by", primary)
